@@ -13,7 +13,8 @@ programs in which the as-built numbering is timing dependent (ForkReport).
 Binding: every program is executed along TLC behaviours and seeded random schedules under three limit
 configurations (as given, all 1, unlimited); the contract trace spec compares, inside each group
 (program, versions, run index), the digest of (result, set of call hashes, argument value hashes)
-read back from the database.
+read back from the database.  A second family (harness/handlelib.py) advances one handle along several
+independent branches -- handle values flowing through task results -- under eight schedules each.
 """
 
 from __future__ import annotations
@@ -73,8 +74,62 @@ def run(ctx: Ctx) -> None:
     ctx.note("groups_compared", sum(1 for g in groups.values() if g >= 2))
     ctx.note("largest_group", max(groups.values()) if groups else 0)
     ctx.require(sum(1 for g in groups.values() if g >= 2) >= 5, "too few groups with two executions")
+    handle_branches(ctx)
+
+
+def handle_branches(ctx: Ctx) -> None:
+    """One handle advanced along independent branches (harness/handlelib.py): every schedule must record the
+    same handle states, call hashes and result.  Sched_Trace compares the digests per program."""
+    import os
+    import uuid
+
+    from .. import handlelib as HL, simloop
+
+    shapes = HL.FIXED + [HL.random_shape(ctx.rng) for _ in range(ctx.pick(6, 60))]
+    traces, meta = [], []
+    for pi, shape in enumerate(shapes):
+        choosers = [("policy", simloop.PolicyChooser(late, newest)) for late in (False, True) for newest in (False, True)]
+        choosers += [("random", simloop.RandomChooser(ctx.rng, p)) for p in (0.2, 0.5, 0.8, 0.5)]
+        for kind, ch in choosers:
+            db = simloop.clone_db(ctx.scratch, f"hb_{pi}_{uuid.uuid4().hex[:6]}.db")
+            bk = simloop.open_backend(db)
+            try:
+                s, d = simloop.make_scheduler(bk, limits={}, chooser=ch)
+                eid = str(uuid.uuid4())
+                out = simloop.run_controlled(s, d, HL.branches(shape), execution_id=eid)
+                digest = schedlab.callgraph_digest(bk, eid)
+            finally:
+                simloop.close_backend(bk)
+                try:
+                    os.unlink(db)
+                except OSError:
+                    pass
+            ctx.require(out["outcome"] == "value", f"handle program failed: {out}")
+            out = dict(out, value=[str(v) for v in out["value"]])
+            rec = {"mode": "real", "cache": True, "limits": {}, "out": out, "events": d.events, "digest": digest}
+            traces.append(schedlab.contract_trace({"res": []}, rec, None, None, f"hb{pi}"))
+            meta.append({"shape": shape, "schedule": kind, "choices": [e.get("choice") for e in d.events if e["ev"] == "choice"][:60]})
+            ctx.count_impl_trace()
+            ctx.count_eval()
+        ctx.distinct(["handle-branches", shape])
+    bad = dict(traces[1], hdr=dict(traces[1]["hdr"], digest="0" * 40))
+    verdicts = schedlab.validate(ctx, traces + [bad], ON, "c07_handles")
+    ctx.negative_control(not verdicts[-1][0], "a differing digest inside a handle-branch group must be rejected")
+    for (acc, pos, why), m in zip(verdicts[:-1], meta):
+        if not acc:
+            ctx.violation(f"handle branches {m['shape']}: {why} ({m['schedule']} schedule): the handle states / call "
+                          f"hashes recorded depend on the completion order of independent branches",
+                          {"kind": "handle-branches", **m})
+    ctx.note("handle_branch_programs", len(shapes))
 
 
 def replay(ctx: Ctx, rec: dict) -> None:
+    if rec["replay"].get("kind") == "handle-branches":
+        from .. import handlelib as HL
+
+        HL.FIXED[:] = [rec["replay"]["shape"]]
+        ctx.pick = lambda q, t: 0
+        handle_branches(ctx)
+        return
     # a digest disagreement needs two executions: re-run the recorded schedule and the default one
     schedlab.replay_record(ctx, rec, ON)
